@@ -33,7 +33,9 @@ CTOR = r"MethodResponse::(response|error|subscription_response|subscription_erro
 HRC = r"^jsonrpsee_server::server::handle_rpc_call::\{closure#0\}$"
 RSC = r"^<jsonrpsee_server::middleware::rpc::RpcService as jsonrpsee_core::middleware::RpcServiceT>::call$"
 INNER = r"^jsonrpsee_core::server::rpc_module::Methods::inner_call::\{closure#0\}$"
-WSTASK = r"^jsonrpsee_server::transport::ws::background_task::\{closure#0\}::\{closure#\d+\}$"
+# the per-message task of the WebSocket transport: whichever body of transport::ws (an async block inside background_task or
+# a named async fn it spawns) hands the message to handle_rpc_call
+WSTASK = r"^jsonrpsee_server::transport::ws::\w+::\{closure#0\}(::\{closure#\d+\})?$"
 
 _ID_TY = re.compile(r"jsonrpsee_types::(params::)?Id<|jsonrpsee_types::(request::)?Request<|PendingSubscriptionSink")
 
@@ -474,7 +476,7 @@ def r6_transport_agreement(ctx):
     F, R = ctx.F, ctx.R
     callers = sorted({fkey(c.body) for c in F.all_calls(r"server::handle_rpc_call$") if not is_test_body(c.body)})
     exp = ["jsonrpsee_server::transport::http::call_with_service::{closure#0}"]
-    ws_ok = [k for k in callers if re.match(r"jsonrpsee_server::transport::ws::background_task::\{closure#0\}::\{closure#\d+\}$", k)]
+    ws_ok = [k for k in callers if re.match(WSTASK, k)]
     R.check(len(callers) == 2 and exp[0] in callers and len(ws_ok) == 1, "C01.R6", "handle_rpc_call:callers", "handle_rpc_call is entered from the HTTP and the WS transport only", "handle_rpc_call is called from %s" % callers, None)
     # only handle_rpc_call drives RpcServiceT on transport input
     for c in F.all_calls(r"RpcServiceT::(call|batch|notification)$"):
